@@ -4,7 +4,7 @@
    are re-checked against the current source on every run. *)
 From Coq Require Import List Bool NArith Arith Lia.
 Import ListNotations.
-Require Import PV.Lines.Text PV.Lines.Suppress PV.Lines.Place PV.Proofs.LinesSuppress.
+Require Import PV.Lines.Text PV.Lines.Suppress PV.Lines.Place PV.Lines.Fixer PV.Proofs.LinesSuppress.
 Require Import PV.Gen.Codes.
 
 (* ---------------- generic ---------------- *)
@@ -226,4 +226,328 @@ Proof.
   - cbn [Nat.leb]. now rewrite A.
   - rewrite B. unfold has_tag, tag. rewrite E. cbn [orb Nat.leb andb].
     rewrite D. unfold own_tag, tag. now rewrite F.
+Qed.
+
+(* ------------------------------------------------------------------ *)
+(* appending a trailing comment: `rstrip line ++ "  " ++ comment`        *)
+
+Lemma lstrip_nil_iff : forall s, lstrip s = [] <-> forallb is_space s = true.
+Proof.
+  induction s as [|c s IH]; cbn; [tauto|]. destruct (is_space c); cbn; [exact IH|]. split; discriminate.
+Qed.
+
+Lemma lstrip_decomp : forall s, exists w, s = w ++ lstrip s /\ forallb is_space w = true.
+Proof.
+  induction s as [|c s [w [E W]]]; [exists []; auto|]. cbn [lstrip]. destruct (is_space c) eqn:C.
+  - exists (c :: w). cbn. rewrite C, W. split; [now f_equal|reflexivity].
+  - exists []. auto.
+Qed.
+
+Lemma lstrip_head : forall s c r, lstrip s = c :: r -> is_space c = false.
+Proof.
+  induction s as [|x s IH]; intros c r H; cbn in H; [discriminate|].
+  destruct (is_space x) eqn:X; [eauto|]. inversion H; subst. exact X.
+Qed.
+
+Lemma lstrip_app_nonblank : forall a x, lstrip a <> [] -> lstrip (a ++ x) = lstrip a ++ x.
+Proof.
+  induction a as [|c a IH]; intros x H; [now elim H|]. cbn in *. destruct (is_space c); [now apply IH|reflexivity].
+Qed.
+
+Lemma rstrip_decomp : forall s, exists w, s = rstrip s ++ w /\ forallb is_space w = true.
+Proof.
+  intros s. destruct (lstrip_decomp (rev s)) as [w [E W]]. exists (rev w). split.
+  - unfold rstrip. rewrite <- rev_app_distr, <- E. now rewrite rev_involutive.
+  - rewrite forallb_forall in *. intros x IN. apply W. now apply in_rev.
+Qed.
+
+Lemma rstrip_fix : forall s c r, rev s = c :: r -> is_space c = false -> rstrip s = s.
+Proof. intros s c r E C. unfold rstrip. rewrite E. cbn. rewrite C. rewrite <- E. apply rev_involutive. Qed.
+
+Lemma rstrip_nonblank : forall s, lstrip s <> [] -> lstrip (rstrip s) <> [].
+Proof.
+  intros s H E. apply H. destruct (rstrip_decomp s) as [w [D W]]. rewrite D.
+  apply lstrip_nil_iff. rewrite forallb_app, W. apply lstrip_nil_iff in E. now rewrite E.
+Qed.
+
+(* no two consecutive spaces *)
+Fixpoint no_dsp (p : list N) : bool :=
+  match p with
+  | a :: ((b :: _) as r) => negb (N.eqb a 32 && N.eqb b 32) && no_dsp r
+  | _ => true
+  end.
+
+Definition last_nonspace (p : list N) : bool :=
+  match rev p with c :: _ => negb (is_space c) | [] => false end.
+
+(* a pattern that is a prefix of A ++ "  " ++ T lies inside A *)
+Lemma prefix_app_l : forall p a x, prefix p a = true -> prefix p (a ++ x) = true.
+Proof.
+  induction p as [|c p IH]; intros a x H; [reflexivity|]. destruct a as [|d a]; [discriminate|]. cbn in *.
+  apply andb_true_iff in H. destruct H as [H1 H2]. rewrite H1. cbn. now apply IH.
+Qed.
+
+Lemma last_nonspace_cons : forall c p, p <> [] -> last_nonspace (c :: p) = last_nonspace p.
+Proof.
+  intros c p H. unfold last_nonspace. cbn [rev]. destruct (rev p) as [|x r] eqn:E.
+  - apply (f_equal (@rev N)) in E. rewrite rev_involutive in E. cbn in E. contradiction.
+  - reflexivity.
+Qed.
+
+Lemma prefix_sep_inside : forall p a t, p <> [] -> no_dsp p = true -> last_nonspace p = true ->
+  prefix p (a ++ 32%N :: 32%N :: t) = prefix p a.
+Proof.
+  induction p as [|c p IH]; intros a t NE ND LN; [now elim NE|].
+  destruct a as [|d a].
+  - cbn [app prefix]. destruct (N.eqb c 32) eqn:C; cbn; [|reflexivity].
+    destruct p as [|c2 p2].
+    + unfold last_nonspace in LN. cbn in LN. apply N.eqb_eq in C. subst. discriminate.
+    + cbn [prefix]. destruct (N.eqb c2 32) eqn:C2; cbn; [|reflexivity].
+      cbn [no_dsp] in ND. rewrite C, C2 in ND. discriminate.
+  - cbn [app prefix]. destruct (N.eqb c d); cbn; [|reflexivity].
+    destruct p as [|c2 p2]; [reflexivity|].
+    apply IH; [discriminate| |].
+    + cbn [no_dsp] in ND. apply andb_true_iff in ND. tauto.
+    + rewrite last_nonspace_cons in LN by discriminate. exact LN.
+Qed.
+
+Lemma substr_sep : forall p a t, p <> [] -> no_dsp p = true -> last_nonspace p = true ->
+  starts_nonspace p = true ->
+  substr p (a ++ 32%N :: 32%N :: t) = substr p a || substr p t.
+Proof.
+  intros p a t NE ND LN SN. induction a as [|d a IH].
+  - cbn [app]. change (32%N :: 32%N :: t) with (repeat space_char 2 ++ t).
+    rewrite substr_spaces by assumption.
+    destruct p as [|c p]; [now elim NE|]. cbn. reflexivity.
+  - cbn [app substr]. rewrite IH.
+    change (d :: a ++ 32%N :: 32%N :: t) with ((d :: a) ++ 32%N :: 32%N :: t).
+    rewrite prefix_sep_inside by assumption. now rewrite orb_assoc.
+Qed.
+
+(* ... and a pattern ending in a non-space character never reaches into trailing whitespace *)
+Lemma prefix_ws_inside : forall p a w, p <> [] -> last_nonspace p = true -> forallb is_space w = true ->
+  prefix p (a ++ w) = prefix p a.
+Proof.
+  induction p as [|c p IH]; intros a w NE LN W; [now elim NE|].
+  destruct a as [|d a].
+  - cbn [app]. destruct w as [|x w]; [reflexivity|]. cbn [prefix]. cbn in W. apply andb_true_iff in W. destruct W as [X W].
+    destruct (N.eqb c x) eqn:C; cbn; [|reflexivity]. apply N.eqb_eq in C. subst x.
+    destruct p as [|c2 p2].
+    + unfold last_nonspace in LN. cbn in LN. rewrite X in LN. discriminate.
+    + specialize (IH [] w). cbn [app] in IH. rewrite IH; [reflexivity|discriminate| |exact W].
+      rewrite last_nonspace_cons in LN by discriminate. exact LN.
+  - cbn [app prefix]. destruct (N.eqb c d); cbn; [|reflexivity].
+    destruct p as [|c2 p2]; [reflexivity|].
+    apply IH; [discriminate| |exact W]. rewrite last_nonspace_cons in LN by discriminate. exact LN.
+Qed.
+
+Lemma substr_ws : forall p a w, p <> [] -> last_nonspace p = true -> forallb is_space w = true ->
+  substr p (a ++ w) = substr p a.
+Proof.
+  intros p a w NE LN W. induction a as [|d a IH].
+  - cbn [app]. induction w as [|x w IHw]; [reflexivity|]. cbn in W. apply andb_true_iff in W. destruct W as [X W].
+    change (substr p (x :: w)) with (prefix p (x :: w) || substr p w). rewrite IHw by assumption.
+    change (x :: w) with ([] ++ x :: w). rewrite prefix_ws_inside; [|assumption|assumption|cbn; now rewrite X, W].
+    cbn [substr]. now destruct (prefix p []).
+  - cbn [app substr]. rewrite IH. change (d :: a ++ w) with ((d :: a) ++ w).
+    now rewrite prefix_ws_inside by assumption.
+Qed.
+
+Section Bare.
+  Context (IGNp : list N).
+  Hypothesis I1 : IGNp <> [].
+  Hypothesis I2 : no_dsp IGNp = true.
+  Hypothesis I3 : last_nonspace IGNp = true.
+  Hypothesis I4 : starts_nonspace IGNp = true.
+  Hypothesis I5 : no_dsp (IGNp ++ [lbracket]) = true.
+
+  Lemma ib_ne : IGNp ++ [lbracket] <> [].
+  Proof. destruct IGNp; discriminate. Qed.
+  Lemma ib_last : last_nonspace (IGNp ++ [lbracket]) = true.
+  Proof. unfold last_nonspace. rewrite rev_app_distr. reflexivity. Qed.
+
+  Lemma has_bare_sep : forall a t,
+    has_bare IGNp (a ++ 32%N :: 32%N :: t) = has_bare IGNp a || has_bare IGNp t.
+  Proof.
+    intros a t. induction a as [|d a IH].
+    - cbn [app]. change (32%N :: 32%N :: t) with (repeat space_char 2 ++ t).
+      rewrite has_bare_spaces by assumption. destruct IGNp; [now elim I1|]. reflexivity.
+    - cbn [app has_bare]. rewrite IH.
+      change (d :: a ++ 32%N :: 32%N :: t) with ((d :: a) ++ 32%N :: 32%N :: t).
+      rewrite !prefix_sep_inside by (assumption || apply ib_ne || apply ib_last). now rewrite orb_assoc.
+  Qed.
+
+  Lemma has_bare_ws : forall a w, forallb is_space w = true -> has_bare IGNp (a ++ w) = has_bare IGNp a.
+  Proof.
+    intros a w W. induction a as [|d a IH].
+    - cbn [app]. induction w as [|x w IHw]; [reflexivity|]. cbn in W. apply andb_true_iff in W. destruct W as [X W].
+      change (has_bare IGNp (x :: w)) with
+        (prefix IGNp (x :: w) && negb (prefix (IGNp ++ [lbracket]) (x :: w)) || has_bare IGNp w).
+      rewrite IHw by assumption.
+      change (x :: w) with ([] ++ x :: w).
+      rewrite (prefix_ws_inside IGNp [] (x :: w)); [|assumption|assumption|cbn; now rewrite X, W].
+      destruct IGNp; [now elim I1|]. reflexivity.
+    - cbn [app has_bare]. rewrite IH. change (d :: a ++ w) with ((d :: a) ++ w).
+      now rewrite !prefix_ws_inside by (assumption || apply ib_ne || apply ib_last).
+  Qed.
+End Bare.
+
+(* ---------------- the generated constants again ---------------- *)
+
+Definition pat_ok (p : list N) : bool :=
+  negb (list_N_eqb p []) && no_dsp p && last_nonspace p && starts_nonspace p.
+
+Lemma pats_ok : pat_ok IGN = true /\ pat_ok (IGN ++ [lbracket]) = true
+  /\ forallb (fun c => pat_ok (tag IGN nm c)) all_codes = true.
+Proof. repeat split; vm_compute; reflexivity. Qed.
+
+Lemma pat_ok_unpack : forall p, pat_ok p = true ->
+  p <> [] /\ no_dsp p = true /\ last_nonspace p = true /\ starts_nonspace p = true.
+Proof.
+  intros p H. unfold pat_ok in H.
+  apply andb_true_iff in H. destruct H as [H H4]. apply andb_true_iff in H. destruct H as [H H3].
+  apply andb_true_iff in H. destruct H as [H1 H2]. repeat split; try assumption.
+  intros ->. discriminate.
+Qed.
+
+Lemma tag_pat_ok : forall c, (c < n_codes)%N -> pat_ok (tag IGN nm c) = true.
+Proof.
+  intros c H. destruct pats_ok as [_ [_ P]]. rewrite forallb_forall in P. apply P, all_codes_complete, H.
+Qed.
+
+Lemma rstrip_has_tag : forall c l, (c < n_codes)%N -> has_tag IGN nm c (rstrip l) = has_tag IGN nm c l.
+Proof.
+  intros c l H. destruct (rstrip_decomp l) as [w [D W]]. rewrite D at 2. unfold has_tag.
+  destruct (pat_ok_unpack _ (tag_pat_ok c H)) as [A [_ [B _]]]. symmetry. now apply substr_ws.
+Qed.
+
+Lemma rstrip_has_bare : forall l, has_bare IGN (rstrip l) = has_bare IGN l.
+Proof.
+  intros l. destruct (rstrip_decomp l) as [w [D W]]. rewrite D at 2.
+  destruct pats_ok as [P1 [P2 _]].
+  destruct (pat_ok_unpack _ P1) as [A [B [C E]]]. destruct (pat_ok_unpack _ P2) as [_ [B2 _]].
+  symmetry. now apply has_bare_ws.
+Qed.
+
+(* the line with a trailing comment appended *)
+Theorem trail_line_features : forall l c0 c, (c0 < n_codes)%N -> (c < n_codes)%N ->
+  trailing_hit IGN nm (trail_line IGN nm l c0) c = trailing_hit IGN nm l c || N.eqb c c0.
+Proof.
+  intros l c0 c H0 H. unfold trailing_hit, trail_line. cbn [app].
+  destruct pats_ok as [P1 [P2 _]].
+  destruct (pat_ok_unpack _ P1) as [A [B [C E]]]. destruct (pat_ok_unpack _ P2) as [_ [B2 _]].
+  rewrite (has_bare_sep IGN A B C E B2).
+  unfold has_tag. destruct (pat_ok_unpack _ (tag_pat_ok c H)) as [T1 [T2 [T3 T4]]].
+  rewrite substr_sep by assumption.
+  fold (has_tag IGN nm c (rstrip l)). fold (has_tag IGN nm c (tag IGN nm c0)).
+  rewrite rstrip_has_tag, rstrip_has_bare by assumption.
+  destruct (pair_ok_unpack c c0 H H0) as [_ [Q2 [Q3 _]]]. rewrite Q2, Q3.
+  unfold has_tag. destruct (has_bare IGN l), (substr (tag IGN nm c) l), (N.eqb c c0); reflexivity.
+Qed.
+
+Fixpoint has_dsp (p : list N) : bool :=
+  match p with
+  | a :: ((b :: _) as r) => (N.eqb a 32 && N.eqb b 32) || has_dsp r
+  | _ => false
+  end.
+
+Lemma has_dsp_no_dsp : forall p, has_dsp p = negb (no_dsp p).
+Proof.
+  induction p as [|a p IH]; [reflexivity|]. destruct p as [|b r]; [reflexivity|].
+  change (has_dsp (a :: b :: r)) with ((N.eqb a 32 && N.eqb b 32) || has_dsp (b :: r)).
+  change (no_dsp (a :: b :: r)) with (negb (N.eqb a 32 && N.eqb b 32) && no_dsp (b :: r)).
+  rewrite IH. destruct (N.eqb a 32 && N.eqb b 32); reflexivity.
+Qed.
+
+Lemma has_dsp_app : forall a t, has_dsp (a ++ 32%N :: 32%N :: t) = true.
+Proof.
+  induction a as [|x a IH]; intros t; [reflexivity|].
+  cbn [app]. specialize (IH t). destruct (a ++ 32%N :: 32%N :: t) as [|y r] eqn:E.
+  - destruct a; discriminate.
+  - change (has_dsp (x :: y :: r)) with ((N.eqb x 32 && N.eqb y 32) || has_dsp (y :: r)).
+    rewrite IH. apply orb_true_r.
+Qed.
+
+Lemma name_no_space : forall c, forallb (fun x => negb (N.eqb x 32)) (nm c) = true.
+Proof.
+  intros c. unfold code_name.
+  assert (A : forallb (fun n => forallb (fun x => negb (N.eqb x 32)) n) code_names = true) by (vm_compute; reflexivity).
+  rewrite forallb_forall in A.
+  destruct (nth_in_or_default (N.to_nat c) code_names []) as [IN|E]; [now apply A|now rewrite E].
+Qed.
+
+Lemma no_dsp_nospace : forall b, forallb (fun x => negb (N.eqb x 32)) b = true -> no_dsp b = true.
+Proof.
+  induction b as [|y b IHb]; intros NB; [reflexivity|]. destruct b as [|z b]; [reflexivity|].
+  cbn [forallb] in NB. apply andb_true_iff in NB. destruct NB as [Y NB]. apply negb_true_iff in Y.
+  change (no_dsp (y :: z :: b)) with (negb (N.eqb y 32 && N.eqb z 32) && no_dsp (z :: b)).
+  rewrite Y. cbn [andb negb]. apply IHb. exact NB.
+Qed.
+
+Lemma no_dsp_app_nospace : forall a b, no_dsp a = true -> last_nonspace a = true ->
+  forallb (fun x => negb (N.eqb x 32)) b = true -> no_dsp (a ++ b) = true.
+Proof.
+  induction a as [|x a IH]; intros b NA LA NB; [now apply no_dsp_nospace|].
+  destruct a as [|x2 a].
+  - cbn [app]. destruct b as [|y b]; [reflexivity|].
+    change (no_dsp (x :: y :: b)) with (negb (N.eqb x 32 && N.eqb y 32) && no_dsp (y :: b)).
+    unfold last_nonspace in LA. cbn in LA.
+    assert (H : N.eqb x 32 = false).
+    { destruct (N.eqb x 32) eqn:E; [|reflexivity]. apply N.eqb_eq in E. subst. discriminate. }
+    rewrite H. cbn [andb negb]. now apply no_dsp_nospace.
+  - change ((x :: x2 :: a) ++ b) with (x :: x2 :: (a ++ b)).
+    change (no_dsp (x :: x2 :: a ++ b)) with (negb (N.eqb x 32 && N.eqb x2 32) && no_dsp ((x2 :: a) ++ b)).
+    change (no_dsp (x :: x2 :: a)) with (negb (N.eqb x 32 && N.eqb x2 32) && no_dsp (x2 :: a)) in NA.
+    apply andb_true_iff in NA. destruct NA as [N1 N2]. rewrite N1. cbn [andb].
+    apply IH; [exact N2| |exact NB]. rewrite last_nonspace_cons in LA by discriminate. exact LA.
+Qed.
+
+Lemma tag_no_dsp : forall c, no_dsp (tag IGN nm c) = true.
+Proof.
+  intros c. unfold tag. destruct pats_ok as [_ [P2 _]]. destruct (pat_ok_unpack _ P2) as [_ [B [C _]]].
+  rewrite app_assoc. apply no_dsp_app_nospace; [exact B|exact C|].
+  rewrite forallb_app, name_no_space. reflexivity.
+Qed.
+
+Lemma last_tag : forall c, rev (tag IGN nm c) = rbracket :: rev (IGN ++ [lbracket] ++ nm c).
+Proof. intros c. unfold tag. rewrite !app_assoc. rewrite rev_app_distr. reflexivity. Qed.
+
+Theorem trail_line_shape : forall l c0, lstrip l <> [] -> starts_hash l = false ->
+  starts_hash (trail_line IGN nm l c0) = false /\
+  (forall c, own_hit IGN nm (trail_line IGN nm l c0) c = false) /\
+  lstrip (trail_line IGN nm l c0) <> [] /\
+  ends_backslash (rstrip (trail_line IGN nm l c0)) = false.
+Proof.
+  intros l c0 NB SH. unfold trail_line. cbn [app].
+  pose proof (rstrip_nonblank l NB) as NBr.
+  assert (RV : rev (rstrip l ++ space_char :: space_char :: tag IGN nm c0)
+               = rbracket :: rev (IGN ++ [lbracket] ++ nm c0) ++ rev (rstrip l ++ [space_char; space_char])).
+  { change (rstrip l ++ space_char :: space_char :: tag IGN nm c0) with (rstrip l ++ [space_char; space_char] ++ tag IGN nm c0).
+    rewrite app_assoc, rev_app_distr, last_tag. reflexivity. }
+  assert (RS : rstrip (rstrip l ++ space_char :: space_char :: tag IGN nm c0)
+               = rstrip l ++ space_char :: space_char :: tag IGN nm c0).
+  { eapply rstrip_fix; [exact RV|reflexivity]. }
+  split; [|split; [|split]].
+  - destruct (rstrip_decomp l) as [w [D W]]. destruct (rstrip l) as [|x r] eqn:E; [now elim NBr|].
+    rewrite D in SH. exact SH.
+  - intros c. unfold own_hit, own_bare, own_tag, strip.
+    rewrite lstrip_app_nonblank by exact NBr.
+    assert (ST : rev (lstrip (rev (lstrip (rstrip l) ++ space_char :: space_char :: tag IGN nm c0)))
+                 = lstrip (rstrip l) ++ space_char :: space_char :: tag IGN nm c0).
+    { assert (RV2 : rev (lstrip (rstrip l) ++ space_char :: space_char :: tag IGN nm c0)
+                    = rbracket :: rev (IGN ++ [lbracket] ++ nm c0) ++ rev (lstrip (rstrip l) ++ [space_char; space_char])).
+      { change (lstrip (rstrip l) ++ space_char :: space_char :: tag IGN nm c0)
+          with (lstrip (rstrip l) ++ [space_char; space_char] ++ tag IGN nm c0).
+        rewrite app_assoc, rev_app_distr, last_tag. reflexivity. }
+      exact (rstrip_fix _ _ _ RV2 eq_refl). }
+    rewrite ST.
+    assert (D : forall q, no_dsp q = true ->
+              list_N_eqb (lstrip (rstrip l) ++ space_char :: space_char :: tag IGN nm c0) q = false).
+    { intros q Q. destruct (list_N_eqb _ q) eqn:E; [|reflexivity]. apply list_N_eqb_eq in E.
+      pose proof (has_dsp_app (lstrip (rstrip l)) (tag IGN nm c0)) as HD. unfold space_char in E. rewrite E in HD.
+      rewrite has_dsp_no_dsp, Q in HD. discriminate. }
+    destruct pats_ok as [P1 _]. destruct (pat_ok_unpack _ P1) as [_ [B _]].
+    rewrite (D IGN B), (D (tag IGN nm c) (tag_no_dsp c)). reflexivity.
+  - rewrite lstrip_app_nonblank by exact NBr. destruct (lstrip (rstrip l)); [now elim NBr|discriminate].
+  - rewrite RS. unfold ends_backslash. rewrite RV. reflexivity.
 Qed.
